@@ -112,6 +112,16 @@ def _replay(arg):
     keep = []
     for fid in hist:
         rb = intern()
+        if fid == 'REG':
+            # a reader registered while the process runs: a subclass of the
+            # gridded CAMx reader (creating it registers it; a second creation
+            # under the same name changes nothing)
+            from PseudoNetCDF.camxfiles.uamiv.Memmap import uamiv as parent
+            late = type('late_uamiv', (parent,), {'__module__': 'verif_late'})
+            steps.append({'f': 'REG', 'rb': rb, 'ra': intern(),
+                          'cls': clsid(late), 'digest': '<none>',
+                          'name': 'late_uamiv'})
+            continue
         try:
             f = pnc.pncopen(paths[fid])
             cls = clsid(type(f))
@@ -186,6 +196,12 @@ def build_env(tmp):
            'explicit': {m['fid']: m['explicit'] for m in expl},
            'raises': {m['fid']: m['raises'] for m in meas},
            'aliasing': False, 'emit': False, 'maxhist': 3}
+    # the reader some histories register later: same acceptance as its parent
+    LATE, PARENT = 'verif_late.late_uamiv', 'camxfiles.uamiv.Memmap.uamiv'
+    env['classof'] = dict(env['classof'], late_uamiv=LATE)
+    for fid in env['accept']:
+        if PARENT in env['accept'][fid]:
+            env['accept'][fid] = env['accept'][fid] + [LATE]
     return pool, env
 
 
@@ -253,6 +269,14 @@ def run(tier):
                                for _ in range(rnd.randint(0, 2))],
                          'mf': [rnd.choice(files)
                                 for _ in range(rnd.randint(2, 3))]})
+        # histories in which a reader is registered between opens
+        nreg = 80 if tier == 'quick' else 1500
+        pref = [f for f in files if 'uamiv' in f] or files
+        for i in range(nreg):
+            h = [rnd.choice(pref if rnd.random() < 0.6 else files)
+                 for _ in range(rnd.randint(2, 5))]
+            h.insert(rnd.randint(0, len(h) - 1), 'REG')
+            todo.append(h)
         args = [(i + 1, h, paths) for i, h in enumerate(todo)]
         res = run_cases(_replay, args, timeout=120)
         traces = []
